@@ -3,6 +3,10 @@ package props
 import (
 	"bytes"
 	"fmt"
+	"strconv"
+
+	secp256k1 "gitlab.com/yawning/secp256k1-voi"
+	"gitlab.com/yawning/secp256k1-voi/secec"
 
 	"gitlab.com/yawning/secp256k1-voi/secec/bitcoin"
 	"gitlab.com/yawning/secp256k1-voi/secec/h2c"
@@ -62,6 +66,82 @@ func init() {
 			}
 		})
 	})
+	// byte strings that are a valid encoding followed by 2^24 (2^32 in the thorough tier) more
+	// bytes: a length kept in 24 or 32 bits comes out "right" again
+	for _, id := range []string{"C06", "C10", "C12", "C13"} {
+		id := id
+		wrap(id, func(r *mon.Run) {
+			if r.Config != "asm" && r.Config != "purego" {
+				return
+			}
+			lc := "c" + id[1:]
+			r.Require(lc + ":huge-input")
+			extra := []int{1 << 24, 2 << 24, 1<<24 + 1}
+			if r.Thorough() && r.Config == "asm" && strconv.IntSize == 64 {
+				extra = append(extra, 1<<32, 1<<32+1<<24)
+			}
+			r.Seq(lc+"/huge-inputs", len(extra), func(w *mon.W, i int) {
+				d, _ := keyValue(w.Rng)
+				Q := oracle.MulG(d)
+				dig := w.Rng.Bytes(32)
+				r0, s0, _, _, _ := oracle.RFC6979Sign(d, dig)
+				type in struct {
+					name  string
+					head  []byte
+					parse func(b []byte) bool // true: accepted
+				}
+				var ins []in
+				pt := func(b []byte) bool { _, err := secp256k1.NewPointFromBytes(b); return err == nil }
+				key := func(b []byte) bool { _, err := secec.NewPublicKey(b); return err == nil }
+				switch id {
+				case "C06":
+					rcv := secp256k1.NewGeneratorPoint()
+					set := func(b []byte) bool {
+						rcv.Set(secp256k1.NewGeneratorPoint()) // a rejection must leave exactly this behind
+						_, err := rcv.SetBytes(b)
+						return err == nil || rcv.Equal(secp256k1.NewGeneratorPoint()) != 1
+					}
+					ins = []in{{"NewPointFromBytes(compressed", oracle.EncodeCompressed(Q), pt}, {"NewPointFromBytes(uncompressed", oracle.EncodeUncompressed(Q), pt},
+						{"NewPointFromBytes(identity", []byte{0}, pt}, {"Point.SetBytes(compressed", oracle.EncodeCompressed(Q), set}}
+				case "C10":
+					ins = []in{{"NewPublicKey(compressed", oracle.EncodeCompressed(Q), key}, {"NewPublicKey(uncompressed", oracle.EncodeUncompressed(Q), key},
+						{"ParseASN1PublicKey(", oracle.SPKIWrite(oracle.EncodeUncompressed(Q)), func(b []byte) bool { _, err := secec.ParseASN1PublicKey(b); return err == nil }}}
+				case "C12":
+					pub := mustPub(Q)
+					ins = []in{{"ParseASN1Signature(", oracle.DERWriteSig(r0, s0), func(b []byte) bool { _, _, err := secec.ParseASN1Signature(b); return err == nil }},
+						{"Verify(ASN.1 signature", oracle.DERWriteSig(r0, s0), func(b []byte) bool { return pub.Verify(dig, b, nil) }},
+						{"ParseCompactSignature(", append(b32(r0), b32(s0)...), func(b []byte) bool { _, _, err := secec.ParseCompactSignature(b); return err == nil }},
+						{"ParseASN1PublicKey(", oracle.SPKIWrite(oracle.EncodeUncompressed(Q)), func(b []byte) bool { _, err := secec.ParseASN1PublicKey(b); return err == nil }},
+						{"IsValidSignatureEncodingBIP0066(", append(oracle.DERWriteSig(r0, s0), 1), bitcoin.IsValidSignatureEncodingBIP0066}}
+				default:
+					pk := oracle.BIP340PubKey(d)
+					msg := w.Rng.Bytes(10)
+					sig := oracle.BIP340Sign(d, w.Rng.Bytes(32), msg)
+					ins = []in{{"NewSchnorrPublicKey(", pk, func(b []byte) bool { _, err := bitcoin.NewSchnorrPublicKey(b); return err == nil }},
+						{"SchnorrPublicKey.Verify(signature", sig, func(b []byte) bool {
+							k, err := bitcoin.NewSchnorrPublicKey(pk)
+							return err == nil && k.Verify(msg, b)
+						}}}
+				}
+				buf := make([]byte, 80+600+extra[i]) // zero pages: only what a parser touches is ever mapped
+				for _, x := range ins {
+					copy(buf, x.head)
+					b := buf[:len(x.head)+extra[i]]
+					w.Case(true, []byte("huge"), []byte(x.name), []byte{byte(i)})
+					w.Class(lc + ":huge-input")
+					if !x.parse(x.head) && x.name != "IsValidSignatureEncodingBIP0066(" {
+						continue // (not a valid head: nothing to learn)
+					}
+					if x.parse(b) {
+						w.Fail(lc+"/huge-inputs/"+x.name, fmt.Sprintf("%svalid encoding followed by %d zero bytes) was accepted", x.name, extra[i]), "head", hx(x.head), "extra", extra[i])
+					}
+					for j := range x.head {
+						buf[j] = 0
+					}
+				}
+			})
+		})
+	}
 	for _, id := range []string{"C13", "C14"} {
 		id := id
 		wrap(id, func(r *mon.Run) {
